@@ -403,12 +403,24 @@ def run_sizing(spec):
         loads = GL.make_loads(desc)
         tg = ph["soil"]["undisturbed_temp"]
         flow = float(round(g.uniform(0.2, 0.7), 3))
-        case = {"phys": ph, "grid": [nx, ny], "loads": desc, "flow": flow}
+        own_family = bool(g.random() < 0.35)
+        case = {"phys": ph, "grid": [nx, ny], "loads": desc, "flow": flow, "own_family_120_180_240": own_family}
+        if own_family:
+            stats["sizing_with_a_caller_supplied_family"] = stats.get("sizing_with_a_caller_supplied_family", 0) + 1
         for method, name in ((TimestepType.HYBRID, "hybrid"), (TimestepType.HOURLY, "hourly")):
             with warnings.catch_warnings():
                 warnings.simplefilter("ignore")
                 ghe = GG.make_ghe(ph, coords, 100.0, flow, loads, 12, max_eft=tg + 14.0, min_eft=tg - 9.0, hmax=hmax, hmin=hmin, real_g=True)
-                ghe.compute_g_functions()
+                if own_family:
+                    # a caller-supplied family of long-time curves that does not reach down to the minimum height (a library table):
+                    # the height window of the sizing is still the user's [min_height, max_height]
+                    from ghedesigner.gfunction import calc_g_func_for_multiple_lengths
+                    from ghedesigner.utilities import eskilson_log_times
+
+                    ghe.gFunction = calc_g_func_for_multiple_lengths(ghe.B_spacing, [120.0, 180.0, 240.0], ghe.bhe.b.r_b, ghe.bhe.b.D, ghe.bhe.m_flow_borehole,
+                                                                     ghe.bhe_type, eskilson_log_times(), coords, ghe.bhe.fluid, ghe.bhe.pipe, ghe.bhe.grout, ghe.bhe.soil)
+                else:
+                    ghe.compute_g_functions()
                 try:
                     ghe.size(method=method)
                 except Exception as e:  # noqa: BLE001
@@ -425,13 +437,18 @@ def run_sizing(spec):
                 if abs(e) > 1e-3:
                     # same classifier as for design runs: a sign change within +-1 mm means the solver sits on a jump of the objective
                     side = []
-                    for dh in (-1e-3, 1e-3):
-                        g3 = copy.deepcopy(ghe)
-                        g3.bhe.b.H = H + dh
-                        with warnings.catch_warnings():
-                            warnings.simplefilter("ignore")
-                            a, b = g3.simulate(method=method)
-                        side.append(max(a - (tg + 14.0), (tg - 9.0) - b))
+                    try:
+                        for dh in (-1e-3, 1e-3):
+                            g3 = copy.deepcopy(ghe)
+                            g3.bhe.b.H = H + dh
+                            with warnings.catch_warnings():
+                                warnings.simplefilter("ignore")
+                                a, b = g3.simulate(method=method)
+                            side.append(max(a - (tg + 14.0), (tg - 9.0) - b))
+                    except ValueError:
+                        # the object cannot be simulated 1 mm beside the returned height (its interpolation table was built without
+                        # extrapolation): no jump can be established, the height is simply not a root
+                        side = [float("nan"), float("nan")]
                     mech = "root-on-a-jump-of-the-sizing-objective" if (side[1] < 0 < side[0] and side[1] - 1e-9 <= e <= side[0] + 1e-9) else f"sized-height-not-a-root:{name}"
                     out.append({"mechanism": mech, "message": f"size({name}) returned H={H:.4f} m in ({hmin},{hmax}) but the {name} excess there is {e:.4g} K (1 mm below {side[0]:.3g}, above {side[1]:.3g})", "case": case})
             else:
